@@ -146,6 +146,79 @@ def run_c20(tier, out):
             checker_cmd="tlc Trace_Graph.tla (Graph + CircomOps over BigNat), chunks in parallel")
 
 
+def run_grain(wd, out, binary, quick):
+    """Grain.tla: the parameter generation as a state machine; TLC runs it to the end against (a) the constants the library
+    generates at run time and (b) the circomlib table the Poseidon judge uses: both must be the specified stream."""
+    import copy
+    import time
+    lib = os.path.join(wd, "lib_consts.json")
+    rc, o = run([binary, "poseidon-consts", "--out", lib], timeout=600)
+    if rc != 0 or not os.path.exists(lib):
+        # generating the parameters crashed in the library: data, not a tool failure
+        out.violation("the library's Poseidon parameter generation failed: " + o[-400:], {"kind": "grain", "what": "generation failed"})
+        return
+    table = os.path.join(SPEC, "poseidon_constants.json")
+    libv = json.load(open(lib))
+    # negative control: one round constant and one matrix entry of the library's set 1 altered -> Conforms must be violated
+    neg = copy.deepcopy(libv)
+    neg["C"][0][2] = list(neg["C"][0][2])
+    neg["C"][0][2][0] ^= 1
+    negp = os.path.join(wd, "neg_consts.json")
+    json.dump(neg, open(negp, "w"))
+    neg2 = copy.deepcopy(libv)
+    neg2["M"][0][1][0] = list(neg2["M"][0][1][0])
+    neg2["M"][0][1][0][3] ^= 4
+    neg2p = os.path.join(wd, "neg2_consts.json")
+    json.dump(neg2, open(neg2p, "w"))
+    sets = [1, 2, 3] if quick else list(range(1, 9))
+    jobs = [("lib", lib, i) for i in sets] + [("table", table, i) for i in ([1] if quick else range(1, 9))] + [("neg", negp, 1), ("neg2", neg2p, 1)]
+
+    def one(job):
+        kind, path, idx = job
+        meta = os.path.join(wd, f"grain-{kind}-{idx}")
+        t0 = time.time()
+        rc, o = run(["timeout", "1500", "tlc", "-workers", "1", "-metadir", meta, "-cleanup", "-noGenerateSpecTE", "-coverage", "1",
+                     "-config", "MC_Grain.cfg", "Grain.tla"], cwd=SPEC,
+                    env={"GRAIN_TABLE": path, "GRAIN_IDX": str(idx), "JAVA_TOOL_OPTIONS": "-Xss512m -Xmx2g"}, timeout=1600)
+        import shutil
+        shutil.rmtree(meta, ignore_errors=True)
+        return job, o, time.time() - t0
+    results = []
+    with ThreadPoolExecutor(max_workers=8) as ex:
+        results = list(ex.map(one, jobs))
+    drawn = rejected = entries = 0
+    for (kind, path, idx), o, wall in results:
+        viol = re.search(r"Error: Invariant (\w+) is violated", o)
+        done = re.search(r'<<"GRAIN-DONE", (\d+), (\d+), (\d+), (\d+), (\d+), (\d+), (\d+)>>', o)
+        fin = "Model checking completed. No error has been found" in o
+        if kind in ("neg", "neg2"):
+            if not (viol and viol.group(1) == "Conforms"):
+                raise ToolError(f"negative control: Grain.tla accepted a table with an altered {'round constant' if kind == 'neg' else 'matrix entry'}:\n" + o[-1500:])
+            continue
+        if viol:
+            bad = re.findall(r"bad = (\{.*\})", o)
+            what = f"parameter set {idx} (t = {idx + 1}): invariant {viol.group(1)} of Grain.tla violated, {bad[-1] if bad else ''}"
+            if kind == "table":
+                raise ToolError("the circomlib table of the Poseidon judge is not the specified Grain stream: " + what)
+            out.violation("the Poseidon parameters the library generates are not the Grain-LFSR-derived ones: " + what,
+                          {"kind": "grain", "idx": idx, "invariant": viol.group(1), "bad": bad[-1] if bad else None})
+            continue
+        if not fin or not done:
+            raise ToolError(f"Grain.tla run ({kind}, set {idx}) did not finish:\n" + o[-2000:])
+        acts = dict((m.group(1), int(m.group(2))) for m in re.finditer(r"^<(\w+) line \d+, col \d+ to line \d+, col \d+ of module Grain>: (\d+):", o, re.M))
+        never = [a for a in ("WarmUp", "Ark", "ArkDone", "SeedX", "SeedY", "Entry", "Finish") if acts.get(a, 0) == 0]
+        if never:
+            raise ToolError(f"vacuity: Grain.tla actions never taken ({kind}, set {idx}): {never}")
+        if kind == "lib":
+            drawn += int(done.group(5))
+            rejected += int(done.group(6))
+            entries += (idx + 1) ** 2
+    out.notes.append(f"Grain.tla: parameter sets {sets} of the library's run-time constants and set(s) {[1] if quick else list(range(1, 9))} of the judge's table "
+                     f"are the specified stream ({drawn} round constants, {rejected} rejected draws, {entries} matrix entries checked as inverses)")
+    out.add(grain_sets_checked=sets, grain_round_constants=drawn, grain_rejected_draws=rejected, grain_matrix_entries=entries,
+            grain_negative_controls_rejected=2)
+
+
 def run_c09(tier, out):
     """Poseidon / hash-to-field with TLC as verifier of certificates (Poseidon.tla) and as reference interpreter (Keccak.tla)"""
     from common import bignat_accelerator
@@ -159,6 +232,7 @@ def run_c09(tier, out):
     out.notes.append("TLC Keccak.tla reproduces the Keccak-256 standard vectors for \"\" and \"abc\"")
     bignat_accelerator(wd, out, seed())
     binary, _ = build_harness("default")
+    run_grain(wd, out, binary, quick)
     tp = os.path.join(wd, "hashes.ndjson")
     rc, o = run([binary, "hashes", "--seed", str(seed()), "--consts", os.path.join(SPEC, "poseidon_constants.json"), "--tier", tier, "--out", tp], timeout=3600)
     if rc != 0:
